@@ -132,6 +132,9 @@ func offBorderClass(mech, end string, o *d2graph.Object, p *geo.Point, tau float
 			return "endpoint-clipped-to-label/icon-box-displaced-by-3d/multiple-offset:" + mech + ":" + end
 		}
 	}
+	if c := coveredBy(o, p, tau); c != "" && !selfLoop {
+		return "endpoint-hidden-inside-3d/multiple-pair:" + mech + ":" + end + ":inside-" + c
+	}
 	strictlyIn := func(b fbox) bool { return p.X > b.x0 && p.X < b.x1 && p.Y > b.y0 && p.Y < b.y1 }
 	where := "detached"
 	for _, r := range visualExtent(o) {
@@ -158,8 +161,29 @@ func offBorderClass(mech, end string, o *d2graph.Object, p *geo.Point, tau float
 	return "endpoint-off-border:" + mech + ":" + end + ":" + endKind(o) + ":" + where
 }
 
+// coveredBy: for a rectangular shape with a 3d/multiple copy, the name of the copy (base box or offset box) whose
+// interior contains p deeper than tau. Such a point is on the border of one copy but hidden inside the union of
+// the two, i.e. not on the border of the visual extent. d2 itself (dagre and ELK layout) decides which copy to clip
+// against by exactly this union reading.
+func coveredBy(o *d2graph.Object, p *geo.Point, tau float64) string {
+	dx, dy := o.GetModifierElementAdjustments()
+	if (dx == 0 && dy == 0) || len(o.ToShape().Perimeter()) > 0 {
+		return ""
+	}
+	b := objBox(o)
+	for _, r := range []region{{"box", b, nil}, {"3d/multiple-offset-box", fbox{b.x0 + dx, b.y0 - dy, b.x1 + dx, b.y1 - dy}, nil}} {
+		if p.X > r.box.x0+tau && p.X < r.box.x1-tau && p.Y > r.box.y0+tau && p.Y < r.box.y1-tau {
+			return r.name
+		}
+	}
+	return ""
+}
+
 func onExtentBorder(o *d2graph.Object, p *geo.Point, tau float64) (bool, string) {
 	var ds []string
+	if c := coveredBy(o, p, tau); c != "" {
+		return false, fmt.Sprintf("more than tau inside the %s of the 3d/multiple pair", c)
+	}
 	for _, r := range visualExtent(o) {
 		if r.per != nil {
 			if nearPerimeter(r.per, p.X, p.Y, tau) {
@@ -305,6 +329,11 @@ var c20Conns = []string{
 	"a -> c\nc.d",
 	"c.d -> c.e\nc.e -> a",
 	"g: {grid-rows: 1; a; b}\ng.a -> g.b\ng.b -> a",
+	// endpoints of very different heights with an offset (3d / multiple) box on the tall or on the short side
+	"a -> b\nb.style.3d: true\nb.height: 300",
+	"a -> b\nb.style.multiple: true\nb.height: 300",
+	"a -> b\na.style.3d: true\na.height: 300",
+	"a -> b\na.style.multiple: true\nb.height: 300",
 }
 
 func c20Mods() (all, small []string) {
@@ -349,9 +378,9 @@ func init() {
 	eng.Register(&eng.Check{
 		ID: "C20", Level: "exploration", HangBound: 900 * time.Second,
 		QuickBudget: 240 * time.Second, ThoroughBudget: 24 * time.Minute,
-		Rule: "10 connection scenes (leaf-leaf both arrow directions, self-loop, labelled two-way, parallel pair, into a container's child, container endpoints, inside a container, grid cells + cross-diagram) x 4 directions x <=k modifier statements (every shape keyword on source and on destination, outside/border/inside label positions, outside icons, 3d, multiple, stroke width, explicit sizes, container labels/shapes) laid out with dagre and ELK; for every non-sequence connection the first and last route point must lie within 2 px + stroke width of the border of a component of the endpoint's visual extent (box, lib/shape outline, box/outline shifted by the 3d/multiple offset, outside label box with or without its padding, outside icon box); non-trivial = at least one endpoint checked; outcome = endpoint offsets relative to the shape box",
+		Rule: "14 connection scenes (leaf-leaf both arrow directions, self-loop, labelled two-way, parallel pair, into a container's child, container endpoints, inside a container, grid cells + cross-diagram, four scenes with a 3d/multiple endpoint much taller or shorter than its peer) x 4 directions x <=k modifier statements (every shape keyword on source and on destination, outside/border/inside label positions, outside icons, 3d, multiple, stroke width, explicit sizes, container labels/shapes) laid out with dagre and ELK; for every non-sequence connection the first and last route point must lie within 2 px + stroke width of the border of a component of the endpoint's visual extent (box, lib/shape outline, box/outline shifted by the 3d/multiple offset, outside label box with or without its padding, outside icon box); non-trivial = at least one endpoint checked; outcome = endpoint offsets relative to the shape box",
 		Assumptions: []string{
-			"'border of the visual extent' is weakened to 'border of one of its components' (a point on a component border but inside another component is accepted)",
+			"'border of the visual extent' is weakened to 'border of one of its components' (a point on a component border but inside another component is accepted), except that for rectangular shapes with a 3d/multiple copy a point deeper than the tolerance inside the base box or the offset copy is rejected (union reading, the one d2's own clipping code uses)",
 			"nearness to a non-rectangular outline is decided with d2's own lib/geo intersection routines (star of 8 probe segments of half-length tau around the point against shape.Perimeter())",
 			"connections with an endpoint inside a sequence diagram are excluded (C23)",
 			"diagrams using features the engine declares unsupported, and diagrams whose layout errors (C17), are outside the space",
